@@ -336,14 +336,14 @@ func (idx *RoaringMetadataIndex) queryNumeric(bsiIndex *bsi.BSI, filter Filter) 
 		if err != nil {
 			return nil, err
 		}
-		return bsiIndex.CompareValue(0, bsi.EQ, value, 0, nil), nil
+		return numericEqual(bsiIndex, value), nil
 
 	case OpNotEqual: // Not equal
 		value, err := toInt64(filter.Value)
 		if err != nil {
 			return nil, err
 		}
-		eq := bsiIndex.CompareValue(0, bsi.EQ, value, 0, nil)
+		eq := numericEqual(bsiIndex, value)
 		result := bsiIndex.GetExistenceBitmap().Clone()
 		result.AndNot(eq)
 		return result, nil
@@ -353,7 +353,9 @@ func (idx *RoaringMetadataIndex) queryNumeric(bsiIndex *bsi.BSI, filter Filter) 
 		if err != nil {
 			return nil, err
 		}
-		return bsiIndex.CompareValue(0, bsi.GT, value, 0, nil), nil
+		result := bsiIndex.CompareValue(0, bsi.GE, value, 0, nil)
+		result.AndNot(bsiIndex.CompareValue(0, bsi.LE, value, 0, nil))
+		return result, nil
 
 	case OpGreaterThanOrEqual: // Greater than or equal
 		value, err := toInt64(filter.Value)
@@ -367,7 +369,9 @@ func (idx *RoaringMetadataIndex) queryNumeric(bsiIndex *bsi.BSI, filter Filter) 
 		if err != nil {
 			return nil, err
 		}
-		return bsiIndex.CompareValue(0, bsi.LT, value, 0, nil), nil
+		result := bsiIndex.CompareValue(0, bsi.LE, value, 0, nil)
+		result.AndNot(bsiIndex.CompareValue(0, bsi.GE, value, 0, nil))
+		return result, nil
 
 	case OpLessThanOrEqual: // Less than or equal
 		value, err := toInt64(filter.Value)
@@ -385,11 +389,25 @@ func (idx *RoaringMetadataIndex) queryNumeric(bsiIndex *bsi.BSI, filter Filter) 
 		if err != nil {
 			return nil, err
 		}
-		return bsiIndex.CompareValue(0, bsi.RANGE, minVal, maxVal, nil), nil
+		result := bsiIndex.CompareValue(0, bsi.GE, minVal, 0, nil)
+		result.And(bsiIndex.CompareValue(0, bsi.LE, maxVal, 0, nil))
+		return result, nil
 
 	default:
 		return nil, fmt.Errorf("unsupported operator for numeric field: %s", filter.Operator)
 	}
+}
+
+// numericEqual returns the documents whose value equals v.
+//
+// The BSI's EQ, LT, GT and RANGE comparisons give wrong answers when the stored
+// value and the operand have opposite signs (EQ -5 matches 5, GT -7 misses 7);
+// only the non-strict one-sided comparisons GE and LE are reliable, so every
+// numeric operator is expressed through those two.
+func numericEqual(bsiIndex *bsi.BSI, v int64) *roaring.Bitmap {
+	result := bsiIndex.CompareValue(0, bsi.GE, v, 0, nil)
+	result.And(bsiIndex.CompareValue(0, bsi.LE, v, 0, nil))
+	return result
 }
 
 // toInt64 converts various numeric types to int64
